@@ -1,6 +1,7 @@
 import TxVerif.Props.C12
 import TxVerif.Tie.PQ
 import TxVerif.Props.C12Writer
+import TxVerif.Props.PQQueueRefine
 open TxVerif
 #print axioms ack_space_bound
 #print axioms ack_keeps_unacked
@@ -28,3 +29,10 @@ open TxVerif
 #print axioms flush_reports_delivered_count
 #print axioms effOps_eq
 #print axioms runF_liftOk
+#print axioms queue_sim_step
+#print axioms queue_refines_fifo
+#print axioms queue_pages_in_use
+#print axioms queue_ack_frees
+#print axioms queue_reach_example
+#print axioms ack_plan_C
+#print axioms queue_reader_page_live
